@@ -253,6 +253,10 @@ func CombineLatestWith1[A, B any](obsB Observable[B]) func(Observable[A]) Observ
 			// 3: error
 			var status int32
 
+			// One update at a time: storing a value, reading the latest of the other sources and
+			// delivering the combination is one step, whichever goroutines the sources emit from.
+			var mu sync.Mutex
+
 			onUpdate := func(ctx context.Context, a *A, b *B) {
 				if atomic.LoadInt32(&status) < 2 {
 					if a == nil {
@@ -282,6 +286,9 @@ func CombineLatestWith1[A, B any](obsB Observable[B]) func(Observable[A]) Observ
 					subscriberCtx,
 					NewObserverWithContext(
 						func(ctx context.Context, v A) {
+							mu.Lock()
+							defer mu.Unlock()
+
 							valueA.Store(&v)
 							onUpdate(ctx, &v, nil)
 						},
@@ -302,6 +309,9 @@ func CombineLatestWith1[A, B any](obsB Observable[B]) func(Observable[A]) Observ
 					subscriberCtx,
 					NewObserverWithContext(
 						func(ctx context.Context, v B) {
+							mu.Lock()
+							defer mu.Unlock()
+
 							valueB.Store(&v)
 							onUpdate(ctx, nil, &v)
 						},
@@ -345,6 +355,10 @@ func CombineLatestWith2[A, B, C any](obsB Observable[B], obsC Observable[C]) fun
 			// 4: error
 			var status int32
 
+			// One update at a time: storing a value, reading the latest of the other sources and
+			// delivering the combination is one step, whichever goroutines the sources emit from.
+			var mu sync.Mutex
+
 			onUpdate := func(ctx context.Context, a *A, b *B, c *C) {
 				if atomic.LoadInt32(&status) < 3 {
 					if a == nil {
@@ -378,6 +392,9 @@ func CombineLatestWith2[A, B, C any](obsB Observable[B], obsC Observable[C]) fun
 					subscriberCtx,
 					NewObserverWithContext(
 						func(ctx context.Context, v A) {
+							mu.Lock()
+							defer mu.Unlock()
+
 							valueA.Store(&v)
 							onUpdate(ctx, &v, nil, nil)
 						},
@@ -398,6 +415,9 @@ func CombineLatestWith2[A, B, C any](obsB Observable[B], obsC Observable[C]) fun
 					subscriberCtx,
 					NewObserverWithContext(
 						func(ctx context.Context, v B) {
+							mu.Lock()
+							defer mu.Unlock()
+
 							valueB.Store(&v)
 							onUpdate(ctx, nil, &v, nil)
 						},
@@ -418,6 +438,9 @@ func CombineLatestWith2[A, B, C any](obsB Observable[B], obsC Observable[C]) fun
 					subscriberCtx,
 					NewObserverWithContext(
 						func(ctx context.Context, v C) {
+							mu.Lock()
+							defer mu.Unlock()
+
 							valueC.Store(&v)
 							onUpdate(ctx, nil, nil, &v)
 						},
@@ -463,6 +486,10 @@ func CombineLatestWith3[A, B, C, D any](obsB Observable[B], obsC Observable[C], 
 			// 5: error
 			var status int32
 
+			// One update at a time: storing a value, reading the latest of the other sources and
+			// delivering the combination is one step, whichever goroutines the sources emit from.
+			var mu sync.Mutex
+
 			onUpdate := func(ctx context.Context, a *A, b *B, c *C, d *D) {
 				if atomic.LoadInt32(&status) < 4 {
 					if a == nil {
@@ -500,6 +527,9 @@ func CombineLatestWith3[A, B, C, D any](obsB Observable[B], obsC Observable[C], 
 					subscriberCtx,
 					NewObserverWithContext(
 						func(ctx context.Context, v A) {
+							mu.Lock()
+							defer mu.Unlock()
+
 							valueA.Store(&v)
 							onUpdate(ctx, &v, nil, nil, nil)
 						},
@@ -520,6 +550,9 @@ func CombineLatestWith3[A, B, C, D any](obsB Observable[B], obsC Observable[C], 
 					subscriberCtx,
 					NewObserverWithContext(
 						func(ctx context.Context, v B) {
+							mu.Lock()
+							defer mu.Unlock()
+
 							valueB.Store(&v)
 							onUpdate(ctx, nil, &v, nil, nil)
 						},
@@ -540,6 +573,9 @@ func CombineLatestWith3[A, B, C, D any](obsB Observable[B], obsC Observable[C], 
 					subscriberCtx,
 					NewObserverWithContext(
 						func(ctx context.Context, v C) {
+							mu.Lock()
+							defer mu.Unlock()
+
 							valueC.Store(&v)
 							onUpdate(ctx, nil, nil, &v, nil)
 						},
@@ -560,6 +596,9 @@ func CombineLatestWith3[A, B, C, D any](obsB Observable[B], obsC Observable[C], 
 					subscriberCtx,
 					NewObserverWithContext(
 						func(ctx context.Context, v D) {
+							mu.Lock()
+							defer mu.Unlock()
+
 							valueD.Store(&v)
 							onUpdate(ctx, nil, nil, nil, &v)
 						},
@@ -606,6 +645,10 @@ func CombineLatestWith4[A, B, C, D, E any](obsB Observable[B], obsC Observable[C
 			// 6: error
 			var status int32
 
+			// One update at a time: storing a value, reading the latest of the other sources and
+			// delivering the combination is one step, whichever goroutines the sources emit from.
+			var mu sync.Mutex
+
 			onUpdate := func(ctx context.Context, a *A, b *B, c *C, d *D, e *E) {
 				if atomic.LoadInt32(&status) < 5 {
 					if a == nil {
@@ -647,6 +690,9 @@ func CombineLatestWith4[A, B, C, D, E any](obsB Observable[B], obsC Observable[C
 					subscriberCtx,
 					NewObserverWithContext(
 						func(ctx context.Context, v A) {
+							mu.Lock()
+							defer mu.Unlock()
+
 							valueA.Store(&v)
 							onUpdate(ctx, &v, nil, nil, nil, nil)
 						},
@@ -667,6 +713,9 @@ func CombineLatestWith4[A, B, C, D, E any](obsB Observable[B], obsC Observable[C
 					subscriberCtx,
 					NewObserverWithContext(
 						func(ctx context.Context, v B) {
+							mu.Lock()
+							defer mu.Unlock()
+
 							valueB.Store(&v)
 							onUpdate(ctx, nil, &v, nil, nil, nil)
 						},
@@ -687,6 +736,9 @@ func CombineLatestWith4[A, B, C, D, E any](obsB Observable[B], obsC Observable[C
 					subscriberCtx,
 					NewObserverWithContext(
 						func(ctx context.Context, v C) {
+							mu.Lock()
+							defer mu.Unlock()
+
 							valueC.Store(&v)
 							onUpdate(ctx, nil, nil, &v, nil, nil)
 						},
@@ -707,6 +759,9 @@ func CombineLatestWith4[A, B, C, D, E any](obsB Observable[B], obsC Observable[C
 					subscriberCtx,
 					NewObserverWithContext(
 						func(ctx context.Context, v D) {
+							mu.Lock()
+							defer mu.Unlock()
+
 							valueD.Store(&v)
 							onUpdate(ctx, nil, nil, nil, &v, nil)
 						},
@@ -727,6 +782,9 @@ func CombineLatestWith4[A, B, C, D, E any](obsB Observable[B], obsC Observable[C
 					subscriberCtx,
 					NewObserverWithContext(
 						func(ctx context.Context, v E) {
+							mu.Lock()
+							defer mu.Unlock()
+
 							valueE.Store(&v)
 							onUpdate(ctx, nil, nil, nil, nil, &v)
 						},
@@ -772,6 +830,10 @@ func CombineLatestAll[T any]() func(Observable[Observable[T]]) Observable[[]T] {
 			// n: not done
 			var status int32
 
+			// One update at a time: storing a value, reading the latest of the other sources and
+			// delivering the combination is one step, whichever goroutines the sources emit from.
+			var mu sync.Mutex
+
 			onUpdate := func(ctx context.Context) {
 				if atomic.LoadInt32(&status) > 0 {
 					result := make([]T, len(values))
@@ -813,6 +875,9 @@ func CombineLatestAll[T any]() func(Observable[Observable[T]]) Observable[[]T] {
 							subscriberCtx,
 							NewObserverWithContext(
 								func(ctx context.Context, v T) {
+									mu.Lock()
+									defer mu.Unlock()
+
 									values[j].Store(&v)
 									onUpdate(ctx)
 								},
